@@ -14,6 +14,18 @@ import (
 func (x *Exec) siteAssertions(st *State, in ssa.Instruction, name string, args []Val) string {
 	x.calls[name]++
 	site := fmt.Sprintf("%s#%d", name, x.calls[name])
+	// path-sensitive call counter (ghost), kept only for callees some clause asks about via ncalls("name")
+	// (incremented after the assertions of this site were evaluated: at a site, ncalls counts the
+	// calls completed before it)
+	defer func() {
+		if cn := "Ghost_calls_" + name; x.comps[cn] != "" {
+			cur, ok := st.heap[cn]
+			if !ok || cur == cn+"@0" {
+				cur = "0"
+			}
+			st.heap[cn] = x.define(x.fresh(cn), "Int", sx("+", cur, "1"))
+		}
+	}()
 	if x.fc == nil {
 		return site
 	}
